@@ -91,15 +91,31 @@ def replay_plan(exe, plan_path, log=False):
     return parse_result(r.stdout), r.stdout
 
 
-def handle_candidate(prop, cfg, exe, plan_path, tmp, seed, summary):
-    """gate -> minimise -> gate again -> replay file. Returns ('violation', path) / ('known', entry) / ('unreproducible', info)."""
+def handle_candidate(prop, cfg, exe, plan_path, tmp, seed, lineage):
+    """gate -> minimise -> gate again -> replay file. Returns ('violation', path) / ('known', entry) / ('unreproducible', info).
+    lineage = (first run index, step) of the process that produced the candidate."""
     a, _ = replay_plan(exe, plan_path)
     b, _ = replay_plan(exe, plan_path)
+    if (not a["violation"] or a["violation"] != b["violation"]) and lineage and open(plan_path).read().find("mode=ops") >= 0:
+        # not reproducible alone: the library may have carried state over from earlier histories of the same process.
+        # Replay everything that process executed as one long history; minimisation then drops what is irrelevant.
+        try:
+            r = int(os.path.basename(plan_path).rsplit("-", 1)[1].split(".")[0])
+            first, step = lineage(r)
+            cat = polysim(exe, ["concat", "--prop", prop, "--seed", str(seed), "--start", str(first), "--worker", "0", "--nworkers", str(step), "--runs", str(r), "--plan", plan_path])
+            long_path = os.path.join(tmp, "long-" + os.path.basename(plan_path))
+            open(long_path, "w").write(cat.stdout)
+            a, _ = replay_plan(exe, long_path)
+            b, _ = replay_plan(exe, long_path)
+            if a["violation"] and a["violation"] == b["violation"]:
+                plan_path = long_path
+        except Exception as e:  # noqa
+            pass
     if not a["violation"] or a["violation"] != b["violation"] or a["loghash"] != b["loghash"]:
         return ("unreproducible", "candidate %s: replays gave %s/%s and %s/%s" % (plan_path, a["violation"], a["loghash"], b["violation"], b["loghash"]))
     cls = a["violation"]
     minp = os.path.join(tmp, "min-" + os.path.basename(plan_path))
-    m = polysim(exe, ["minimize", "--plan", plan_path, "--out", minp], timeout=1800)
+    m = polysim(exe, ["minimize", "--plan", plan_path, "--out", minp, "--budget", "60"], timeout=1800)
     use = plan_path
     mininfo = ""
     if os.path.exists(minp):
@@ -282,8 +298,12 @@ def main():
                 else:
                     cands.append(pp)
             seen_cls = set()
-            for pp in cands[:6]:
-                kind, info = handle_candidate(prop, cfg, exes[cfg], pp, tmp, seed, None)
+            for pp in cands[:3]:
+                if chunk:
+                    lineage = lambda r, ch=chunk: ((r // ch) * ch, 1)
+                else:
+                    lineage = lambda r, n=nw: (r % n, n)
+                kind, info = handle_candidate(prop, cfg, exes[cfg], pp, tmp, seed, lineage)
                 if kind == "violation":
                     if info[1] not in seen_cls:
                         violations.append((cfg,) + info)
